@@ -180,6 +180,13 @@ func (fw *fWorld) durable(c *explore.Ctx, what string, rec *ae.DataRowRecord, pa
 	}
 	if ik.ParentKeyMeta == nil || t[ik.ParentKeyMeta.KeyId][ik.ParentKeyMeta.Created] == nil {
 		c.Failf("C02:sk-not-durable", "%s returned a record whose IK names a system key that is not in the metastore (calls: %s)", what, fw.callTrail())
+		if ik.ParentKeyMeta != nil {
+			want := ref.SystemKeyID("s", "p", fw.w.MS.Suffix)
+			if ik.ParentKeyMeta.KeyId != want {
+				// the intermediate key is wrapped under the service's system key but filed under another parent name
+				c.Failf("C03:ik-names-wrong-parent", "%s: the stored intermediate key names %s as its parent, the service's system key is %s (calls: %s)", what, ik.ParentKeyMeta.KeyId, want, fw.callTrail())
+			}
+		}
 		return
 	}
 	out, err := ref.Decrypt(t, fw.w.KMS.Unwrap, toRefRow(rec))
